@@ -30,11 +30,11 @@ def consts(tier: str, part: str):
     base = {"Variant": '"fixed"', "Rot1Choice": "{1}", "PassBound": "4"}
     if tier == "quick":
         if part == "free":
-            base.update({"Topos": g.tla_set(["face2", "edge2", "corner2", "hook3"]), "RotChoice": "{1, 30}",
+            base.update({"Topos": g.tla_set(["face2", "edge2", "hook3"]), "RotChoice": "{1, 30}",
                          "ChopOpts": g.tla_set(["A2", "B3"]), "MaxChopped": "2", "Cover": "FALSE", "AllOrders": "TRUE"})
         else:
-            base.update({"Topos": g.tla_set(["row3", "ell3", "tee4b"]), "RotChoice": "{1, 43}",
-                         "ChopOpts": g.tla_set(["A2"]), "MaxChopped": "0", "Cover": "TRUE", "AllOrders": "FALSE"})
+            base.update({"Topos": g.tla_set(["ell3", "tee4b"]), "RotChoice": "{1, 43}",
+                         "ChopOpts": g.tla_set(["A2"]), "MaxChopped": "1", "Cover": "TRUE", "AllOrders": "FALSE"})
     else:
         if part == "free":
             base.update({"Topos": g.tla_set(["face2", "edge2", "corner2", "row3", "ell3", "hook3", "stair3"]),
@@ -67,11 +67,11 @@ def run(ctx: Ctx) -> None:
                 "non-trivial = propagation has to cross at least one shared edge; distinct by (vertex ids, chops)")
     rng = random.Random(ctx.seed + 2)
     n_sched = 3 if ctx.tier == "quick" else 8
-    limit = 450 if ctx.tier == "quick" else 12000
+    limit = 350 if ctx.tier == "quick" else 12000
     for part in ("free", "cover"):
         c = consts(ctx.tier, part)
-        g.model_check(ctx, c, INVS, props=["Terminates"] if part == "cover" or ctx.tier == "thorough" else [], timeout=3000)
-        cfgs = g.generate(ctx, c)
+        cfgs = g.model_check(ctx, c, INVS, props=["Terminates"] if ctx.tier == "thorough" else [],
+                             timeout=3000, emit=True).records
         if len(cfgs) > limit:
             rng.shuffle(cfgs)
             # prefer configurations where something has to propagate
